@@ -31,7 +31,7 @@ func Ls3(dip *inode.Inode, op *fstxn.FsTxn, start nfstypes.Cookie3, dircount, ma
 			e := &nfstypes.Entryplus3{
 				Fileid:          nfstypes.Fileid3(inum),
 				Name:            nfstypes.Filename3(name),
-				Cookie:          nfstypes.Cookie3(off),
+				Cookie:          nfstypes.Cookie3(dir.EntCookie(off)),
 				Name_attributes: pa,
 				Name_handle:     ph,
 				Nextentry:       nil,
@@ -57,7 +57,7 @@ func Readdir3(dip *inode.Inode, op *fstxn.FsTxn,
 			e := &nfstypes.Entry3{
 				Fileid:    nfstypes.Fileid3(inum),
 				Name:      nfstypes.Filename3(name),
-				Cookie:    nfstypes.Cookie3(off),
+				Cookie:    nfstypes.Cookie3(dir.EntCookie(off)),
 				Nextentry: nil,
 			}
 			if last == nil {
